@@ -31,10 +31,10 @@ METHODS = ["m0", "m1", "m2", "m3"]
 
 
 @st.composite
-def _mdef(draw, mi):
+def _mdef(draw, mi, avail=PARAMS):
     if draw(st.integers(0, 4)) == 0 and mi != 0:
         return {"decorated": False}
-    pool = PARAMS + [p + ":bounds" for p in PARAMS[:2]] + METHODS[:mi][:1]
+    pool = list(avail) + [p + ":bounds" for p in PARAMS[:2]] + METHODS[:mi][:1]
     deps = sorted(draw(st.sets(st.sampled_from(pool), min_size=1, max_size=3)))
     return {"decorated": True, "deps": deps, "on_init": draw(st.sampled_from([False, False, True])),
             "queued": draw(st.sampled_from([False, False, True]))}
@@ -53,11 +53,20 @@ def _case(draw):
     else:
         bases = [[], [0], [0], [2, 1]]
     classes = []
+    # p0, p1 are declared in the root class; p2, p3 in class 1 when `split` (parameters owned by different classes)
+    split = len(bases) >= 2 and draw(st.booleans())
+
+    def ancestors(ci):
+        out = {ci}
+        for b in bases[ci]:
+            out |= ancestors(b)
+        return out
     for ci in range(len(bases)):
+        avail = PARAMS if (not split or 1 in ancestors(ci)) else PARAMS[:2]
         defs = {}
         for mi, m in enumerate(METHODS):
             if draw(st.integers(0, 2 if ci else 1)) == 0 or (ci == 0 and mi == 0):
-                defs[m] = draw(_mdef(mi))
+                defs[m] = draw(_mdef(mi, avail))
         classes.append(defs)
     val = st.integers(1, 9)
     op = st.one_of(
@@ -71,7 +80,7 @@ def _case(draw):
         st.tuples(st.just("fn_set"), st.integers(0, 1), st.integers(0, 1), val),
         st.tuples(st.just("fn_update"), st.integers(0, 1)),
     ).map(list)
-    return {"bases": bases, "classes": classes, "ops": draw(st.lists(op, min_size=1, max_size=8)),
+    return {"bases": bases, "classes": classes, "split": split, "ops": draw(st.lists(op, min_size=1, max_size=8)),
             "fn_deps": draw(st.lists(st.tuples(st.integers(0, 1), st.integers(0, 1)), min_size=1, max_size=4, unique=True))}
 
 
@@ -94,9 +103,9 @@ def execute(case):
     real = []
     for ci in range(n):
         ns = {}
-        if ci == 0:
-            for p in PARAMS:
-                ns[p] = param.Number(default=0, bounds=(0, 100))
+        split = case.get("split", False)
+        for p in (PARAMS[:2] if split else PARAMS) if ci == 0 else (PARAMS[2:] if split and ci == 1 else []):
+            ns[p] = param.Number(default=0, bounds=(0, 100))
         for name, d in case["classes"][ci].items():
             fn = mk_method(ci, name)
             if d["decorated"]:
@@ -105,7 +114,11 @@ def execute(case):
         bases = tuple(real[b] for b in case["bases"][ci]) or (param.Parameterized,)
         real.append(type(f"K{ci}", bases, ns))
     K = real[-1]
+    if case.get("split") and real[1] not in K.__mro__:
+        K = real[1]          # the instance class must own all four parameters
     mro = [real.index(c) for c in K.__mro__ if c in real]
+    if case.get("split"):
+        marks.add("parameters_owned_by_different_classes")
 
     # ---- independent resolver ------------------------------------------------------
     def nearest(name):
